@@ -41,7 +41,7 @@ class Finding:
                 'where': self.where}
 
 
-_UNKNOWN_RX = re.compile(r"(?<![A-Za-z_])TOP(?![A-Za-z_])|Sym\(")
+_UNKNOWN_RX = re.compile(r"(?<![A-Za-z_])TOP(?![A-Za-z_])|Sym\(|(?<![A-Za-z_])Obj\(\w+@\d+\)")
 
 
 class Check:
